@@ -128,6 +128,14 @@ func (s MsgServer) AddDelegate(c context.Context, msg *types.MsgAddDelegate) (*t
 
 	delegateCoin := types.NewDelegateAmount(msg.Amount.Amount.Sub(slashAmount.Amount))
 
+	// stake that a governance removal undelegated is not delegated on the oracle's behalf any more (it returns
+	// to the oracle through WithdrawReward/UnbondedOracle): it must not be counted as stake and power again
+	if _, err = s.stakingKeeper.GetDelegation(ctx, oracle.GetDelegateAddress(s.moduleName), oracle.GetValidator()); err != nil {
+		if !errors.Is(err, stakingtypes.ErrNoDelegation) {
+			return nil, err
+		}
+		oracle.DelegateAmount = sdkmath.ZeroInt()
+	}
 	oracle.DelegateAmount = oracle.DelegateAmount.Add(delegateCoin.Amount)
 	if oracle.DelegateAmount.Sub(threshold.Amount).IsNegative() {
 		return nil, types.ErrDelegateAmountBelowMinimum
